@@ -16,8 +16,11 @@ import (
 	"testing"
 	realtime "time"
 
+	"github.com/slackhq/nebula/firewall"
 	"github.com/slackhq/nebula/header"
+	"github.com/slackhq/nebula/overlay/batch"
 	"github.com/slackhq/nebula/overlay/tio"
+	"github.com/slackhq/nebula/udp"
 	"github.com/slackhq/nebula/zzverif/mc"
 	"github.com/slackhq/nebula/zzverif/sched"
 	"github.com/slackhq/nebula/zzverif/vtime"
@@ -241,6 +244,29 @@ func c34Cores() []c34Core {
 				},
 			}, net.close
 		}},
+		{"two-senders-queue-on-one-pending-handshake", 3, func(t testing.TB, seed int64) ([]func(), func()) {
+			// two tun routines send to a peer whose handshake is pending (packets are queued on the pending entry) while
+			// the handshake timer retransmits
+			net, a, b := c34Pair(t, seed, 2, 1)
+			a.tunSend(data(a, b, "FIRST")) // creates the pending handshake, first message on the wire (not delivered)
+			net.collect()
+			net.inflight = nil
+			vtime.Advance(100 * vtime.Millisecond)
+			p1, p2 := data(a, b, "Q1"), data(a, b, "Q2")
+			fwp2 := &firewall.ParsedPacket{}
+			sb2 := batch.NewSendBatch(a.conns[1], batch.SendBatchCap, batch.SendBatchCap*(udp.MTU+32))
+			return []func(){
+				func() {
+					a.f.consumeInsidePacket(tio.Packet{Bytes: p1}, a.fwp, a.nb, a.sb, a.rej, 0, nil)
+					a.f.flushSendBatch(a.sb, 0)
+				},
+				func() {
+					a.f.consumeInsidePacket(tio.Packet{Bytes: p2}, fwp2, make([]byte, 12), sb2, make([]byte, mtu), 1, nil)
+					a.f.flushSendBatch(sb2, 1)
+				},
+				func() { a.hm.NextOutboundHandshakeTimerTick(vtime.Now()) },
+			}, net.close
+		}},
 		{"stop-vs-rx", 2, func(t testing.TB, seed int64) ([]func(), func()) {
 			net, a, b := c34Pair(t, seed, 1, 1)
 			if !net.establish(a, b, "s1") || !net.establish(b, a, "s2") {
@@ -261,17 +287,17 @@ func c34Cores() []c34Core {
 var c34TrafficChecks int
 
 type c34Result struct {
-	Core          string          `json:"core"`
-	Bound         int             `json:"bound"`
-	Executions    int64           `json:"executions"`
-	ChoicePoints  int64           `json:"choice_points"`
-	Deadlocks     int64           `json:"deadlocks"`
-	Horizon       int64           `json:"horizon"`
-	Nondet        int64           `json:"nondet"`
-	Complete      bool            `json:"complete"`
-	ByPreemptions map[int]int64   `json:"by_preemptions"`
-	FirstDeadlock []int16         `json:"first_deadlock"`
-	Sample        []int8          `json:"sample_thread_order"`
+	Core          string        `json:"core"`
+	Bound         int           `json:"bound"`
+	Executions    int64         `json:"executions"`
+	ChoicePoints  int64         `json:"choice_points"`
+	Deadlocks     int64         `json:"deadlocks"`
+	Horizon       int64         `json:"horizon"`
+	Nondet        int64         `json:"nondet"`
+	Complete      bool          `json:"complete"`
+	ByPreemptions map[int]int64 `json:"by_preemptions"`
+	FirstDeadlock []int16       `json:"first_deadlock"`
+	Sample        []int8        `json:"sample_thread_order"`
 }
 
 // TestVerifC34Worker runs one core in this process (spawned by TestVerifC34 with the race log configured).
